@@ -1,8 +1,61 @@
 (* Property C17 — enum columns keep their declared value set and order. *)
-From QF Require Import Base.Prelude Model.Bits Proofs.BitsProofs.
-Local Open Scope N_scope.
+From QF Require Import Base.Prelude Gen.GenConsts Model.Bits Model.Frame Model.Filter Model.Ops Proofs.BitsProofs Proofs.EnumProofs.
+Local Open Scope nat_scope.
 
-Theorem C17_bitset_single_ok (v w : N) : v < 256 -> w < 256 ->
+(* whatever the enum factory accepts is read back exactly — every string as itself, null as null (never as a value,
+   no value as null) —, the value table extends the declared one (equals it when values were declared) and never
+   exceeds 255 entries *)
+Theorem C17_decode data values d vals strict :
+  enum_new data values = Ok (ECol d vals strict) ->
+  length vals <= 255
+  /\ (exists ext, vals = values ++ ext) /\ (values <> [] -> vals = values)
+  /\ length d = length data
+  /\ forall k s, nth_error data k = Some s -> cell_at (ECol d vals strict) k = Ok (CEnum s).
+Proof. exact (enum_new_decode data values d vals strict). Qed.
+Print Assumptions C17_decode.
+
+(* with declared values, construction fails on any undeclared value *)
+Theorem C17_strict data values b :
+  values <> [] -> In (Some b) data -> ~ In b values ->
+  forall d vals strict, enum_new data values <> Ok (ECol d vals strict).
+Proof. intros H1 H2 H3. exact (proj2 (enum_new_strict data values b H1 H2 H3)). Qed.
+Print Assumptions C17_strict.
+
+(* more than 255 declared values are rejected *)
+Theorem C17_too_many data values : 255 < length values -> enum_new data values = Fail.
+Proof. exact (enum_new_too_many data values). Qed.
+Print Assumptions C17_too_many.
+
+(* the stored rank is the (declared) position of the cell's string; null has the reserved rank 255 *)
+Theorem C17_rank_is_position data values d vals strict :
+  enum_new data values = Ok (ECol d vals strict) ->
+  forall k r, nth_error d k = Some r ->
+    match nth_error data k with
+    | Some (Some s) => r <> 255%N /\ nth_error vals (N.to_nat r) = Some s
+    | Some None => r = 255%N
+    | None => False
+    end.
+Proof. exact (enum_rank_is_position data values d vals strict). Qed.
+Print Assumptions C17_rank_is_position.
+
+(* the constants the statements above speak about are the ones of the current Go source *)
+Theorem C17_constants : c_nullValue = 255%N /\ c_maxCardinality = 255%N.
+Proof. exact c_null_is_255. Qed.
+Print Assumptions C17_constants.
+
+(* the bitset behind in / like / ilike on enum columns: set then isSet answers "same value" for all uint8 values *)
+Theorem C17_bitset_single_ok (v w : N) : (v < 256)%N -> (w < 256)%N ->
   bitset_isset (bitset_set bitset_empty v) w = N.eqb v w.
 Proof. exact (bitset_single_ok v w). Qed.
 Print Assumptions C17_bitset_single_ok.
+
+(* Non-vacuity: declared order b < a, data with a null and a repeated value; derived enum at the cardinality limit *)
+Example C17_declared_example :
+  enum_new [Some [97%N]; None; Some [98%N]; Some [97%N]] [[98%N]; [97%N]]
+  = Ok (ECol [1; 255; 0; 1]%N [[98%N]; [97%N]] true).
+Proof. vm_compute. reflexivity. Qed.
+
+Example C17_cardinality_limit :
+  (exists d vals, enum_new (map (fun k => Some [N.of_nat k]) (seq 0 255)) [] = Ok (ECol d vals false) /\ length vals = 255)
+  /\ enum_new (map (fun k => Some [N.of_nat k]) (seq 0 256)) [] = Fail.
+Proof. split; [eexists; eexists; split; [vm_compute; reflexivity|reflexivity]|vm_compute; reflexivity]. Qed.
